@@ -96,6 +96,13 @@ func ruleWorklist(c *Ctx, r *Rep) {
 			}
 			list, ok := ia.X.(*ssa.Phi)
 			if !ok || list.Block() != header {
+				// the entity comes from a list that does not change round the loop: nothing is appended to it
+				if _, isSlice := ia.X.Type().Underlying().(*types.Slice); isSlice {
+					if _, isIdxPhi := ia.Index.(*ssa.Phi); isIdxPhi {
+						found++
+						r.Bad("subscribers-appended|"+c.FuncKey(fn), c.Pos(subs.Pos()), "the subscribers of the entity at hand are appended to the list", "the list read from is not extended in the loop")
+					}
+				}
 				continue
 			}
 			found++
